@@ -7,14 +7,16 @@ from vlib import vh_batch, drv_batch, enc
 MANIFEST = dict(
     text="Lean theorems over a mirror model of the lexer (ordered choice on the remaining input, byte spans; keyword/operator/escape/"
          "end_expr/unit tables regenerated from lexer/mod.rs and the Unicode classes dumped from the toolchain's std on every run): "
-         "tokens_tile, gaps_are_whitespace, reject_has_errors for all strings by induction on the lexing loop; relex_counterexample "
-         "(`true|x`) refutes the full re-lex statement and relex_partial proves it for the token classes listed in Props/C17.lean. "
+         "tokens_tile, gaps_are_whitespace, reject_has_errors, lex_fuel_suffices for all strings by induction on the lexing loop; "
+         "relex_counterexample (`true|x`) refutes the full re-lex statement and relex_partial proves it for single-character "
+         "controls, `@`, newlines and multi-character operators (ProvedClass in Props/C17.lean). "
          "Tied to the code by comparing lex_source with the model (kinds, values, byte spans, accept/reject) on ALL strings up to "
          "length 4 (quick) / 5 (thorough) over 28 lexically significant characters and on seeded random fragment strings; the "
          "property itself (tiling, whitespace gaps, re-lex of every token slice) is also checked directly on lex_source's output.",
     note="re-lex is false on the unchanged tree for identifiers spelled like a keyword/true/false/null (known finding "
-         "relex-keywordlike-ident); token classes whose re-lex lemma is not proved in Lean are covered by the enumeration only "
-         "(listed as tested-not-proved in the evidence). Float values are compared as f64 (model keeps the normalised text).",
+         "relex-keywordlike-ident); re-lex of identifiers, keywords, literals, parameters, interpolations, comments, ranges and "
+         "line wraps is NOT proved in Lean (relex_excluding_keywordlike is kept as a def): it is covered by the enumeration only "
+         "(tested-not-proved, listed in the evidence). Float values are compared as f64 (model keeps the normalised text).",
     technique="Lean 4 proof over regenerated lexer tables + exhaustive short-string correspondence", ref="4/C17")
 
 ALPHA = ["'", '"', "\\", "#", "@", "$", ".", "0", "1", "_", "e", "x", "b", "r", "s", "f", "a", "l", "t", " ", "\t", "\n", "\r",
@@ -284,8 +286,8 @@ def run(ctx):
                 "are distinct by construction and are counted, random ones are de-duplicated by hash)")
     ctx.assumptions += ["float literal values are compared as f64: Rust's parsed value printed with {:?} against Python's float() of the "
                         "model's normalised text (IEEE parsing is not modelled in Lean)",
-                        "re-lex token classes proved in Lean are listed in coverage.relex_proved_classes; all other classes are "
-                        "tested-not-proved (exhaustive enumeration + random strings through lex_source)"]
+                        "re-lex is proved in Lean only for the classes in coverage.relex_proved_classes; the classes in "
+                        "coverage.relex_tested_not_proved rest on the exhaustive enumeration + random strings through lex_source"]
     if not (br.cargo_ok and br.drv_ok):
         return
     S = br.gen.get("Lex", {}).get("summary", {})
@@ -350,8 +352,10 @@ def run(ctx):
         "known_finding_sites_where_code_now_satisfies_property": tot["repaired"],
     }
     ctx.coverage_extra["timing_s"] = {"vh": round(tot["vh_s"], 1), "drv": round(tot["drv_s"], 1)}
-    ctx.coverage_extra["relex_proved_classes"] = relex_proved_classes()
-    ctx.coverage_extra["relex_tested_not_proved"] = "every token class not listed in relex_proved_classes"
+    ctx.coverage_extra["relex_theorems_in_props"] = relex_proved_classes()
+    ctx.coverage_extra["relex_proved_classes"] = ["Control", "Annotate", "NewLine", "ArrowThin..Pow (multi-char operators)"]
+    ctx.coverage_extra["relex_tested_not_proved"] = ["Ident (not keyword-like)", "Keyword", "Literal:*", "Param", "Interpolation", "Comment",
+                                                      "DocComment", "Range", "LineWrap"]
 
 
 def relex_proved_classes():
